@@ -6,6 +6,7 @@ import (
 	"go/types"
 	"os"
 	"reflect"
+	"regexp"
 	"sort"
 	"strings"
 
@@ -220,6 +221,29 @@ func runInventory(c *Ctx, idPrefix string, roots []*ssa.Function, reasoned map[s
 	}
 	used := map[string]bool{}
 	counts := map[string]int{}
+	// reasoned entries by (kind, normalised expression): an abort is recognised by its callee and message, wherever a
+	// refactoring moved it (into a helper that only the listed function calls) and whatever its other arguments became
+	type rEntry struct{ key, fn string }
+	byNorm := map[string][]rEntry{}
+	for k := range reasoned {
+		kind, fnKey, expr := splitSiteKey(k)
+		byNorm[kind+"|"+normSiteExpr(kind, expr)] = append(byNorm[kind+"|"+normSiteExpr(kind, expr)], rEntry{k, fnKey})
+	}
+	lookup := func(s PanicSite) string {
+		key := s.Key()
+		if reasoned[key] != "" {
+			return key
+		}
+		for _, e := range byNorm[s.Kind+"|"+normSiteExpr(s.Kind, s.Expr)] {
+			if e.fn == FuncKey(s.Fn) {
+				return e.key
+			}
+			if P.WithinOnly(s.Fn, func(f *ssa.Function) bool { return FuncKey(f) == e.fn }, 3) {
+				return e.key
+			}
+		}
+		return ""
+	}
 	for _, s := range sites {
 		id := kinds[s.Kind]
 		if id == "" {
@@ -227,12 +251,16 @@ func runInventory(c *Ctx, idPrefix string, roots []*ssa.Function, reasoned map[s
 		}
 		counts[s.Kind]++
 		key := s.Key()
+		rk := ""
+		if s.Guard == "" {
+			rk = lookup(s)
+		}
 		switch {
 		case s.Guard != "":
 			c.OK(id, key, s.Pos, "guarded: "+s.Guard)
-		case reasoned[key] != "":
-			used[key] = true
-			c.OK(id, key, s.Pos, "reasoned: "+reasoned[key])
+		case rk != "":
+			used[rk] = true
+			c.OK(id, key, s.Pos, "reasoned: "+reasoned[rk])
 		default:
 			c.Bad(id, key, s.Pos, fmt.Sprintf("%s site reachable from the entry points is neither dominated by a recognised check nor listed with a reason", s.Kind))
 		}
@@ -885,4 +913,36 @@ func checkErrNotSwallowed(c *Ctx, id, key string, call *ssa.Call, e ssa.Value) {
 		}
 	}
 	c.Check(ok, id, key, call.Pos(), detail)
+}
+
+// splitSiteKey splits "kind:function:expression".
+func splitSiteKey(k string) (kind, fn, expr string) {
+	i := strings.Index(k, ":")
+	if i < 0 {
+		return k, "", ""
+	}
+	kind = k[:i]
+	rest := k[i+1:]
+	j := strings.Index(rest, ":")
+	if j < 0 {
+		return kind, rest, ""
+	}
+	return kind, rest[:j], rest[j+1:]
+}
+
+var firstStringLit = regexp.MustCompile(`"((?:[^"\\]|\\.)*)"`)
+
+// normSiteExpr: for an abort, the callee and its first string literal (the message); other kinds keep their expression.
+func normSiteExpr(kind, expr string) string {
+	if kind != "abort" {
+		return expr
+	}
+	callee := expr
+	if i := strings.Index(expr, "("); i >= 0 {
+		callee = expr[:i]
+	}
+	if m := firstStringLit.FindStringSubmatch(expr); m != nil {
+		return callee + "|" + m[1]
+	}
+	return expr
 }
